@@ -118,18 +118,22 @@ func tKVDelCas(k string, cidx uint64) top {
 	return kvTop(api.KVDeleteCAS, fmt.Sprintf("kdc;%s;%d", hx.EncS(k), cidx), k, "", 0, cidx)
 }
 
-func nodeTop(verb api.NodeOp, tok, n, addr string, cidx uint64) top {
+func nodeTop(verb api.NodeOp, tok, n, addr, id string, cidx uint64) top {
 	return top{tok, func() *structs.TxnOp {
-		return &structs.TxnOp{Node: &structs.TxnNodeOp{Verb: verb, Node: structs.Node{Node: n, Address: addr, RaftIndex: ridx(cidx)}}}
+		return &structs.TxnOp{Node: &structs.TxnNodeOp{Verb: verb, Node: structs.Node{Node: n, ID: types.NodeID(id), Address: addr, RaftIndex: ridx(cidx)}}}
 	}}
 }
-func tNodeSet(n, a string) top { return nodeTop(api.NodeSet, "ns;"+hx.EncS(n)+";"+hx.EncS(a), n, a, 0) }
-func tNodeDel(n string) top    { return nodeTop(api.NodeDelete, "nd;"+hx.EncS(n), n, "", 0) }
-func tNodeCas(n, a string, cidx uint64) top {
-	return nodeTop(api.NodeCAS, fmt.Sprintf("nc;%s;%s;%d", hx.EncS(n), hx.EncS(a), cidx), n, a, cidx)
+func tNodeSet(n, a, id string) top {
+	return nodeTop(api.NodeSet, "ns;"+hx.EncS(n)+";"+hx.EncS(a)+";"+hx.EncS(id), n, a, id, 0)
 }
-func tNodeDelCas(n string, cidx uint64) top {
-	return nodeTop(api.NodeDeleteCAS, fmt.Sprintf("ndc;%s;%d", hx.EncS(n), cidx), n, "", cidx)
+func tNodeDel(n, id string) top {
+	return nodeTop(api.NodeDelete, "nd;"+hx.EncS(n)+";"+hx.EncS(id), n, "", id, 0)
+}
+func tNodeCas(n, a, id string, cidx uint64) top {
+	return nodeTop(api.NodeCAS, fmt.Sprintf("nc;%s;%s;%s;%d", hx.EncS(n), hx.EncS(a), hx.EncS(id), cidx), n, a, id, cidx)
+}
+func tNodeDelCas(n, id string, cidx uint64) top {
+	return nodeTop(api.NodeDeleteCAS, fmt.Sprintf("ndc;%s;%s;%d", hx.EncS(n), hx.EncS(id), cidx), n, "", id, cidx)
 }
 
 func svcTop(verb api.ServiceOp, tok, n, id string, port int, cidx uint64) top {
